@@ -15,32 +15,32 @@ lie strictly below `left[i]` and at most `n-1-i` strictly above `right[i]` (`Val
 attained" says that some selection and coupling has `left[i]` (resp. `right[i]`) as its `i`-th
 smallest outcome (`IsRank`).  The full statements are `C02Validity o`, `C02Tight o`, `C02Encloses o`.
 
-Proved (all at the level of the public methods, through the constructor, negation, reciprocal and
-the sign routing of the product):
-* validity: `C02Validity_add_partial`, `C02Validity_sub_partial` (full instances
-  `C02Validity .add`, `C02Validity .sub`), `C02Validity_mul_onesign_partial` (operands of one sign
-  each, all four sign combinations, operands touching zero included — exactly the inputs the model
-  does not route to the straddling branch: `C02Validity_mul_nostraddle_partial`,
-  `oneSign_of_not_straddles`), `C02Validity_div_onesign_partial` (one-signed dividend, zero-free
-  divisor); `C02Validity_mul_pos_partial` is kept as the positive instance;
-* tightness of BOTH bounds: `C02Tight_add_partial`, `C02Tight_sub_partial` (full instances
-  `C02Tight .add`, `C02Tight .sub`), `C02Tight_mul_onesign_partial`, `C02Tight_div_onesign_partial`,
-  and with the bounding selections named explicitly `add_f_tight`, `sub_f_tight`,
-  `mul_f_pos_tight` (anti-diagonal couplings);
-* totality and well-formedness of the result on these inputs: `add_f_ok`, `sub_f_good`,
-  `mul_f_onesign_ok`, `div_f_onesign_ok`; a divisor with a zero bound raises (`div_zero_bound_raises`);
-* enclosure of the other dependencies: `C02Encloses_add`, `C02Encloses_sub` (full instances: the
-  Frechet result encloses the perfect, the opposite AND the independent result — the latter after the
-  constructor condensed its `n²` values, by counting in the `n × n` grid), and for the product of
-  non-negative operands / the quotient of a non-negative dividend by a positive divisor
-  `C02Encloses_mul_nonneg_po_partial`, `C02Encloses_mul_nonneg_i_partial`,
-  `C02Encloses_div_pos_po_partial`, `C02Encloses_div_pos_i_partial`;
+Proved (all at the level of the public methods, through the constructor, negation, reciprocal, the
+sign routing of the product and the zero-straddling branch naive ∩ Balch):
+* **validity, in full** — `C02Validity_all : ∀ o, C02Validity o` (`C02Validity_add`, `_sub`, `_mul`,
+  `_div`): for ALL well-formed operands (zero-free divisor), every selection and every coupling.  The
+  straddling product is `imposition(naive, Balch)`: `naive_allValid` (the `i`-th smallest of `n` corner
+  minima taken from distinct rows of the `n × n` grid is at least the `i`-th smallest of all `n²`),
+  `balchprod_allValid` (validity composes through Frechet sums: `AllValid.comp`), `Valid.imp`;
+* **totality**: `binop_f_total` — the four Frechet operations never fail on well-formed operands and
+  return a well-formed p-box (in particular the imposition of naive and Balch is never empty); a divisor
+  with a zero bound raises (`div_zero_bound_raises`);
+* **enclosure, in full** — `C02Encloses_all : ∀ o, C02Encloses o`: the Frechet result encloses the
+  perfect, the opposite AND the independent result (the latter after the constructor condensed its `n²`
+  values) of the same operation, for ALL well-formed operands of any sign: the four-corner minima /
+  maxima of any pairing of steps are outcomes of a selection and a coupling (`corner_counts`), and the
+  `n × n` grid is the union of the `n` cyclic-shift couplings (`independent_enclosed`);
+* **tightness of BOTH bounds**: `C02Tight_add`, `C02Tight_sub` (full instances),
+  `C02Tight_mul_onesign_partial`, `C02Tight_div_onesign_partial` (operands that do not straddle zero —
+  all four sign combinations, operands touching zero included), and with the bounding selections named
+  explicitly `add_f_tight`, `sub_f_tight`, `mul_f_pos_tight` (anti-diagonal couplings);
 * the two `sort` calls of `frechet_op` are identities.
 
-Missing (correspondence + oracle only): the product / quotient with a zero-straddling operand
-(naive ∩ Balch, `straddleFrechet`) — validity, tightness and enclosure; enclosure of p/o/i for
-products / quotients with a non-positive operand (the four-corner rule then pairs a left with a right
-bound); couplings that are not permutations (Birkhoff mixture argument, cited).
+Missing: `C02Tight .mul` / `.div` for a zero-straddling operand — and it is NOT TRUE there: naive ∩ Balch
+is valid but not best possible.  Witness (model, and the real code at 200 steps with each step repeated
+100 times): `X = ⟨[-2,-2],[-2,-1]⟩`, `Y = ⟨[-2,-2],[-1,1]⟩` gives `left = [-2, 0]`, while every coupling of
+every selection has its second smallest product `≥ 1`.  So the `_partial` tightness theorems are the
+strongest true statements of that shape.  Couplings that are not permutations: Birkhoff mixture argument, cited.
 -/
 set_option linter.unusedSimpArgs false
 set_option linter.unusedVariables false
@@ -162,11 +162,7 @@ theorem add_f_ok (n : Nat) (X Y : PB) (hX : WF n X) (hY : WF n Y) :
   exact mk_arr_ok n _ _ ll lr sl sr (fun i h => hle i (by omega))
 
 /-- **Full statement of C02 (validity part) for the public methods**, all four operations and all
-sign configurations.  Proved below for `add` and `sub` (`C02Validity_add_partial`,
-`C02Validity_sub_partial`: full instances) and, through negation / reciprocal / sign routing, for
-`mul` and `div` on operands that do not straddle zero (`C02Validity_mul_onesign_partial`,
-`C02Validity_div_onesign_partial`); a zero-straddling operand of `mul` / `div` (naive ∩ Balch) is
-covered by the correspondence and the coupling oracle only. -/
+sign configurations.  Proved in full: `C02Validity_all`. -/
 def C02Validity (o : Op) : Prop :=
   ∀ (n : Nat) (X Y R : PB) (hX : WF n X) (hY : WF n Y), (o = .div → ZeroFree Y) →
     binop n o .f X Y = .ok R →
@@ -175,10 +171,8 @@ def C02Validity (o : Op) : Prop :=
       (univ.filter (fun m : Fin n => o.ap (x m) (y (σ m)) < l)).card ≤ i.val ∧
       (univ.filter (fun m : Fin n => r < o.ap (x m) (y (σ m)))).card ≤ n - 1 - i.val
 
-/-- C02 validity for the public `add` / bare `+`: the `add` instance of `C02Validity` ("partial" with
-respect to the four operations: `sub` is `C02Validity_sub_partial`, `mul` / `div` are proved for
-operands that do not straddle zero). -/
-theorem C02Validity_add_partial : C02Validity .add := by
+/-- C02 validity for the public `add` / bare `+` -/
+theorem C02Validity_add : C02Validity .add := by
   intro n X Y R hX hY _ hR x y hx hy σ i l r hl hr
   have h := (add_f_ok n X Y hX hY).1
   simp only [binop] at hR
@@ -212,30 +206,6 @@ theorem mul_f_pos_ok (n : Nat) (X Y : PB) (hX : WF n X) (hY : WF n Y) (pX : NonN
     if_false, not_le.mpr hxh, not_le.mpr hyh, decide_false, hop]
   exact mk_arr_ok n _ _ ll lr sl sr (fun i h => hle i (by omega))
 
-/-- C02 validity for the public `mul` / bare `*` on non-negative, not identically zero operands —
-partial: the positive×positive instance of `C02Validity .mul` (all four sign combinations:
-`C02Validity_mul_onesign_partial`; zero-straddling operands through naive ∩ Balch: correspondence +
-oracle only). -/
-theorem C02Validity_mul_pos_partial (n : Nat) (X Y R : PB) (hX : WF n X) (hY : WF n Y)
-    (pX : NonNeg X) (pY : NonNeg Y) (hxh : 0 < hi X) (hyh : 0 < hi Y)
-    (hR : binop n .mul .f X Y = .ok R)
-    (x y : Fin n → Rat) (hx : Sel n X hX.toWFS x) (hy : Sel n Y hY.toWFS y)
-    (σ : Equiv.Perm (Fin n)) (i : Fin n) (l r : Rat)
-    (hl : R.left[i.val]? = some l) (hr : R.right[i.val]? = some r) :
-    (univ.filter (fun m : Fin n => x m * y (σ m) < l)).card ≤ i.val ∧
-    (univ.filter (fun m : Fin n => r < x m * y (σ m))).card ≤ n - 1 - i.val := by
-  simp only [binop] at hR
-  rw [mul_f_pos_ok n X Y hX hY pX pY hxh hyh] at hR
-  have hRe := (Except.ok.inj hR).symm
-  subst hRe
-  have hop : frechetOp (· * ·) X Y =
-      (frechetLeftRaw mulPos X.left Y.left, frechetRightRaw mulPos X.right Y.right) := by
-    rw [frechetOp_mul_eq X Y pX pY]
-    exact frechetOp_eq_raw mulPos mulPos_mono2 X Y (by rw [hX.llen, hY.llen]) (by rw [hX.rlen, hY.rlen])
-      hY.lsorted hX.rsorted
-  exact frechet_mul_pos_valid n X Y hX.toWFS hY.toWFS pX pY x y hx hy σ i l r
-    (by rw [hop]; exact hl) (by rw [hop]; exact hr)
-
 /-! ## tightness and enclosure: full statements -/
 
 /-- **Full statement of C02 (tightness part)**: every entry of either bound of the public Frechet
@@ -263,7 +233,7 @@ theorem add_f_good (n : Nat) (X Y : PB) (hX : WF n X) (hY : WF n Y) :
   good_frechet (· + ·) add_mono2 n X Y hX hY
 
 /-- C02 tightness for the public `add` / bare `+`, both bounds -/
-theorem C02Tight_add_partial : C02Tight .add := by
+theorem C02Tight_add : C02Tight .add := by
   intro n X Y R hX hY _ hR i
   obtain ⟨e, -, g⟩ := add_f_good n X Y hX hY
   simp only [binop] at hR
@@ -304,7 +274,7 @@ theorem sub_f_good (n : Nat) (X Y : PB) (hX : WF n X) (hY : WF n Y) :
 
 /-- C02 validity for the public `sub` / bare `-`: subtraction is Frechet addition of the negated
 operand, and negation mirrors selections and couplings (`y ↦ -y ∘ rev`, `σ ↦ rev ∘ σ`). -/
-theorem C02Validity_sub_partial : C02Validity .sub := by
+theorem C02Validity_sub : C02Validity .sub := by
   intro n X Y R hX hY _ hR x y hx hy σ i l r hl hr
   obtain ⟨e, -, g⟩ := sub_f_good n X Y hX hY
   simp only [binop] at hR
@@ -314,7 +284,7 @@ theorem C02Validity_sub_partial : C02Validity .sub := by
   exact g.valid x y hx hy σ i l r hl hr
 
 /-- C02 tightness for the public `sub` / bare `-`, both bounds -/
-theorem C02Tight_sub_partial : C02Tight .sub := by
+theorem C02Tight_sub : C02Tight .sub := by
   intro n X Y R hX hY _ hR i
   obtain ⟨e, -, g⟩ := sub_f_good n X Y hX hY
   simp only [binop] at hR
@@ -373,44 +343,8 @@ theorem sub_f_tight (n : Nat) (X Y R : PB) (hX : WF n X) (hY : WF n Y)
 
 /-! ## `mul` on operands of one sign each (sign routing through `negativeFrechet`) -/
 
-/-- the public product of operands of one sign each returns a well-formed p-box -/
-theorem mul_f_onesign_ok (n : Nat) (X Y : PB) (hX : WF n X) (hY : WF n Y) (sX : OneSign X) (sY : OneSign Y) :
-    ∃ R, binop n .mul .f X Y = .ok R ∧ WF n R := by
-  obtain ⟨R, e, w, -⟩ := mul_f_onesign_good n X Y hX hY sX sY
-  exact ⟨R, e, w⟩
-
-/-- **C02 validity for the public `mul` / bare `*` on operands of ONE sign each** — all four sign
-combinations, operands that touch zero from either side included — through the model's
-`negativeFrechet` routing (negation mirrors selections `x ↦ −x∘rev` and couplings, and mirrors the
-result).  Partial: what remains missing of `C02Validity .mul` is a zero-straddling operand
-(naive ∩ Balch). -/
-theorem C02Validity_mul_onesign_partial (n : Nat) (X Y R : PB) (hX : WF n X) (hY : WF n Y)
-    (sX : OneSign X) (sY : OneSign Y) (hR : binop n .mul .f X Y = .ok R)
-    (x y : Fin n → Rat) (hx : Sel n X hX.toWFS x) (hy : Sel n Y hY.toWFS y)
-    (σ : Equiv.Perm (Fin n)) (i : Fin n) (l r : Rat)
-    (hl : R.left[i.val]? = some l) (hr : R.right[i.val]? = some r) :
-    (univ.filter (fun m : Fin n => x m * y (σ m) < l)).card ≤ i.val ∧
-    (univ.filter (fun m : Fin n => r < x m * y (σ m))).card ≤ n - 1 - i.val := by
-  obtain ⟨R', e, -, g⟩ := mul_f_onesign_good n X Y hX hY sX sY
-  simp only [binop] at hR
-  rw [e] at hR
-  have hRe := (Except.ok.inj hR).symm
-  subst hRe
-  exact g.valid x y hx hy σ i l r hl hr
-
-/-- the same with the model's own routing test as hypothesis: neither operand straddles zero -/
-theorem C02Validity_mul_nostraddle_partial (n : Nat) (X Y R : PB) (hX : WF n X) (hY : WF n Y)
-    (sX : straddlesZero X = false) (sY : straddlesZero Y = false) (hR : binop n .mul .f X Y = .ok R)
-    (x y : Fin n → Rat) (hx : Sel n X hX.toWFS x) (hy : Sel n Y hY.toWFS y)
-    (σ : Equiv.Perm (Fin n)) (i : Fin n) (l r : Rat)
-    (hl : R.left[i.val]? = some l) (hr : R.right[i.val]? = some r) :
-    (univ.filter (fun m : Fin n => x m * y (σ m) < l)).card ≤ i.val ∧
-    (univ.filter (fun m : Fin n => r < x m * y (σ m))).card ≤ n - 1 - i.val :=
-  C02Validity_mul_onesign_partial n X Y R hX hY (oneSign_of_not_straddles n X hX sX)
-    (oneSign_of_not_straddles n Y hY sY) hR x y hx hy σ i l r hl hr
-
-/-- C02 tightness for the public `mul` on operands of one sign each, both bounds (partial: missing a
-zero-straddling operand) -/
+/-- C02 tightness for the public `mul` on operands of one sign each, both bounds.  Partial: for a
+zero-straddling operand `C02Tight .mul` does not hold (see the file header for a witness). -/
 theorem C02Tight_mul_onesign_partial (n : Nat) (X Y R : PB) (hX : WF n X) (hY : WF n Y)
     (sX : OneSign X) (sY : OneSign Y) (hR : binop n .mul .f X Y = .ok R) (i : Fin n) :
     (∀ l, R.left[i.val]? = some l → ∃ x y : Fin n → Rat, Sel n X hX.toWFS x ∧ Sel n Y hY.toWFS y ∧
@@ -457,30 +391,8 @@ theorem mul_f_pos_tight (n : Nat) (X Y R : PB) (hX : WF n X) (hY : WF n Y) (pX :
 
 /-! ## `div` : Frechet product with the reciprocal -/
 
-/-- the public quotient of a one-signed dividend by a zero-free divisor returns a well-formed p-box -/
-theorem div_f_onesign_ok (n : Nat) (X Y : PB) (hX : WF n X) (hY : WF n Y) (sX : OneSign X) (z : ZeroFree Y) :
-    ∃ R, binop n .div .f X Y = .ok R ∧ WF n R := by
-  obtain ⟨R, e, w, -⟩ := div_f_onesign_good n X Y hX hY sX z
-  exact ⟨R, e, w⟩
-
-/-- **C02 validity for the public `div` / bare `/`** with a dividend of one sign and a zero-free
-(hence one-signed) divisor: `x / y = x * (1/y)`, the reciprocal mirrors selections `y ↦ (1/y)∘rev`
-and couplings `σ ↦ rev∘σ`.  Partial: missing a zero-straddling dividend. -/
-theorem C02Validity_div_onesign_partial (n : Nat) (X Y R : PB) (hX : WF n X) (hY : WF n Y)
-    (sX : OneSign X) (z : ZeroFree Y) (hR : binop n .div .f X Y = .ok R)
-    (x y : Fin n → Rat) (hx : Sel n X hX.toWFS x) (hy : Sel n Y hY.toWFS y)
-    (σ : Equiv.Perm (Fin n)) (i : Fin n) (l r : Rat)
-    (hl : R.left[i.val]? = some l) (hr : R.right[i.val]? = some r) :
-    (univ.filter (fun m : Fin n => x m / y (σ m) < l)).card ≤ i.val ∧
-    (univ.filter (fun m : Fin n => r < x m / y (σ m))).card ≤ n - 1 - i.val := by
-  obtain ⟨R', e, -, g⟩ := div_f_onesign_good n X Y hX hY sX z
-  simp only [binop] at hR
-  rw [e] at hR
-  have hRe := (Except.ok.inj hR).symm
-  subst hRe
-  exact g.valid x y hx hy σ i l r hl hr
-
-/-- C02 tightness for the public `div`, both bounds (partial: missing a zero-straddling dividend) -/
+/-- C02 tightness for the public `div`, both bounds.  Partial: a zero-straddling dividend goes through
+naive ∩ Balch, which is not best possible. -/
 theorem C02Tight_div_onesign_partial (n : Nat) (X Y R : PB) (hX : WF n X) (hY : WF n Y)
     (sX : OneSign X) (z : ZeroFree Y) (hR : binop n .div .f X Y = .ok R) (i : Fin n) :
     (∀ l, R.left[i.val]? = some l → ∃ x y : Fin n → Rat, Sel n X hX.toWFS x ∧ Sel n Y hY.toWFS y ∧
@@ -497,189 +409,161 @@ theorem C02Tight_div_onesign_partial (n : Nat) (X Y R : PB) (hX : WF n X) (hY : 
 /-- a divisor with a zero bound is rejected (`TypeError` from the reflected division) -/
 theorem div_zero_bound_raises (n : Nat) (d : Dep) (X Y : PB) (h : (0 : Rat) ∈ Y.left ∨ (0 : Rat) ∈ Y.right) :
     binop n .div d X Y = .error .Type := by
-  simp only [binop, div, recip_zero_raises n Y h, bind, Except.bind]
+  obtain ⟨e, he⟩ := recip_zero_raises n Y h
+  simp only [binop, div, he, bind, Except.bind]
 
-/-! ## Frechet encloses the perfect and the opposite result -/
+/-! ## validity for ALL well-formed operands: the zero-straddling product (naive ∩ Balch) included -/
 
-/-- C02 enclosure, `add` against `'p'` and `'o'` (partial: `'i'` is `C02Encloses_add_i_partial`) -/
-theorem C02Encloses_add_po_partial (n : Nat) (d : Dep) (hd : d = .p ∨ d = .o) (X Y F D : PB)
-    (hX : WF n X) (hY : WF n Y) (hF : binop n .add .f X Y = .ok F) (hD : binop n .add d X Y = .ok D) :
-    Encloses F D := by
-  obtain ⟨e, w, g⟩ := add_f_good n X Y hX hY
+/-- **C02 validity for the public `mul` / bare `*`, every well-formed pair of operands** — no sign
+hypothesis.  One-signed operands go through the sign routing (`mul_f_onesign_good`); as soon as one
+operand straddles zero the method returns `imposition(naive, Balch)`: the naive bounds (first `n` of the
+`n²` sorted corner minima, last `n` of the sorted corner maxima) are valid for every assignment of steps
+(`naive_allValid`), every stage of Balch's decomposition `xy = (x−x₀)(y−y₀) + y₀(x−x₀) + x₀(y−y₀) + x₀y₀`
+is valid because validity composes through Frechet sums (`AllValid.comp`, `balchprod_allValid`), and the
+step-wise intersection of two valid boxes is valid (`Valid.imp`). -/
+theorem C02Validity_mul : C02Validity .mul := by
+  intro n X Y R hX hY _ hR x y hx hy σ i l r hl hr
+  simp only [binop] at hR
+  exact (mul_f_allValid n X Y R hX hY hR).2 x y hx hy σ i l r hl hr
+
+/-- **C02 validity for the public `div` / bare `/`, every well-formed dividend and zero-free divisor** -/
+theorem C02Validity_div : C02Validity .div := by
+  intro n X Y R hX hY z hR x y hx hy σ i l r hl hr
+  simp only [binop] at hR
+  exact (div_f_allValid n X Y R hX hY (z rfl) hR).2 x y hx hy σ i l r hl hr
+
+/-- **C02, validity part, in full**: all four operations, all well-formed operands (zero-free divisor) -/
+theorem C02Validity_all (o : Op) : C02Validity o := by
+  cases o with
+  | add => exact C02Validity_add
+  | sub => exact C02Validity_sub
+  | mul => exact C02Validity_mul
+  | div => exact C02Validity_div
+
+/-- the public Frechet operations never fail on well-formed operands (zero-free divisor) and return a
+well-formed p-box -/
+theorem binop_f_total (o : Op) (n : Nat) (X Y : PB) (hX : WF n X) (hY : WF n Y) (z : o = .div → ZeroFree Y) :
+    ∃ R, binop n o .f X Y = .ok R ∧ WF n R := by
+  cases o with
+  | add => exact ⟨_, (add_f_good n X Y hX hY).1, (add_f_good n X Y hX hY).2.1⟩
+  | sub => exact ⟨_, (sub_f_good n X Y hX hY).1, (sub_f_good n X Y hX hY).2.1⟩
+  | mul => exact mul_f_total n X Y hX hY
+  | div => exact div_f_total n X Y hX hY (z rfl)
+
+/-! ## Frechet encloses the perfect, the opposite and the independent result -/
+
+/-- a result encloses itself -/
+theorem encloses_refl (F : PB) : Encloses F F := by
+  intro k l r dl dr hl hr hdl hdr
+  rw [hl] at hdl; rw [hr] at hdr
+  rw [← Option.some.inj hdl, ← Option.some.inj hdr]
+  exact ⟨le_refl _, le_refl _⟩
+
+/-- **C02 enclosure for the public `add`**: the Frechet sum encloses the perfect, the opposite and the
+independent sum (the latter after the constructor condensed its `n²` values) -/
+theorem C02Encloses_add : C02Encloses .add := by
+  intro n d X Y F D hX hY _ hF hD
   simp only [binop] at hF hD
+  obtain ⟨e, wF, g⟩ := add_f_good n X Y hX hY
   rw [e] at hF
   have hFe := (Except.ok.inj hF).symm
   subst hFe
-  rcases hd with rfl | rfl
-  · obtain ⟨e1, e2, -⟩ := perfectOp_mono (· + ·) add_mono2 n X Y hX hY
-    simp only [add, e1, e2] at hD
-    have hDe := (Except.ok.inj hD).symm
-    subst hDe
-    exact good_encloses_perfect (· + ·) n X Y _ hX hY ⟨w.llen, w.rlen⟩ g
-  · obtain ⟨e1, e2, -⟩ := oppositeOp_mono (· + ·) add_mono2 n X Y hX hY
-    simp only [add, e1, e2] at hD
-    have hDe := (Except.ok.inj hD).symm
-    subst hDe
-    exact good_encloses_opposite (· + ·) n X Y _ hX hY ⟨w.llen, w.rlen⟩ g
-
-/-- C02 enclosure, `sub` against `'p'` and `'o'`: `X.sub(Y, d) = X.add(-Y, swapped d)` -/
-theorem C02Encloses_sub_po_partial (n : Nat) (d : Dep) (hd : d = .p ∨ d = .o) (X Y F D : PB)
-    (hX : WF n X) (hY : WF n Y) (hF : binop n .sub .f X Y = .ok F) (hD : binop n .sub d X Y = .ok D) :
-    Encloses F D := by
-  obtain ⟨en, wn⟩ := neg_wf n Y hY
-  simp only [binop, sub, en, bind, Except.bind] at hF hD
-  simp only [swapPO] at hF
-  refine C02Encloses_add_po_partial n (swapPO d) ?_ X (negB Y) F D hX wn (by simpa [binop] using hF)
-    (by simpa [binop] using hD)
-  rcases hd with rfl | rfl
-  · right; rfl
-  · left; rfl
-
-/-- C02 enclosure, `mul` of non-negative operands against `'p'` and `'o'` -/
-theorem C02Encloses_mul_nonneg_po_partial (n : Nat) (d : Dep) (hd : d = .p ∨ d = .o) (X Y F D : PB)
-    (hX : WF n X) (hY : WF n Y) (pX : NonNeg X) (pY : NonNeg Y)
-    (hF : binop n .mul .f X Y = .ok F) (hD : binop n .mul d X Y = .ok D) :
-    Encloses F D := by
-  obtain ⟨F', e, w, g⟩ := mul_f_onesign_good n X Y hX hY (Or.inl pX) (Or.inl pY)
-  simp only [binop] at hF hD
-  rw [e] at hF
-  have hFe := (Except.ok.inj hF).symm
-  subst hFe
-  rcases hd with rfl | rfl
-  · obtain ⟨e1, e2, -⟩ := perfectOp_mono mulPos mulPos_mono2 n X Y hX hY
-    simp only [mul, perfectOp_mul_eq X Y pX pY, e1, e2] at hD
-    have hDe := (Except.ok.inj hD).symm
-    subst hDe
-    rw [perfF_mul_eq X Y pX pY]
-    exact good_encloses_perfect (· * ·) n X Y _ hX hY ⟨w.llen, w.rlen⟩ g
-  · obtain ⟨e1, e2, -⟩ := oppositeOp_mono mulPos mulPos_mono2 n X Y hX hY
-    simp only [mul, oppositeOp_mul_eq X Y pX pY, e1, e2] at hD
-    have hDe := (Except.ok.inj hD).symm
-    subst hDe
-    rw [oppF_mul_eq X Y pX pY]
-    exact good_encloses_opposite (· * ·) n X Y _ hX hY ⟨w.llen, w.rlen⟩ g
-
-/-- C02 enclosure, `div` of a non-negative dividend by a positive divisor against `'p'` and `'o'` -/
-theorem C02Encloses_div_pos_po_partial (n : Nat) (d : Dep) (hd : d = .p ∨ d = .o) (X Y F D : PB)
-    (hX : WF n X) (hY : WF n Y) (pX : NonNeg X) (pY : ∀ v ∈ Y.left, 0 < v)
-    (hF : binop n .div .f X Y = .ok F) (hD : binop n .div d X Y = .ok D) :
-    Encloses F D := by
-  have z : ZeroFree Y := Or.inl pY
-  obtain ⟨-, w, -, -⟩ := recip_ok n Y hY z
-  have hS : InS (fun v => 0 < v) Y := by
-    refine ⟨pY, ?_⟩
-    intro v hv
-    obtain ⟨i, hi', rfl⟩ := List.getElem_of_mem hv
-    have hl := hY.llen; have hr := hY.rlen
-    exact lt_of_lt_of_le (pY _ (List.getElem_mem _)) (hY.le i (by omega))
-  obtain ⟨-, hS'⟩ := flipB_wf _ _ antiInv_recip_pos n Y hY hS
-  have pR : NonNeg (recipB Y) := ⟨fun v hv => le_of_lt (hS'.1 v hv), fun v hv => le_of_lt (hS'.2 v hv)⟩
-  simp only [binop, div_eq_mul_recip n _ X Y hY z] at hF hD
-  simp only [swapPO] at hF
-  refine C02Encloses_mul_nonneg_po_partial n (swapPO d) ?_ X (recipB Y) F D hX w pX pR
-    (by simpa [binop] using hF) (by simpa [binop] using hD)
-  rcases hd with rfl | rfl
-  · right; rfl
-  · left; rfl
-
-/-! ## Frechet encloses the independent result (after condensation of its `n²` values) -/
-
-/-- C02 enclosure, `add` against `'i'` -/
-theorem C02Encloses_add_i_partial (n : Nat) (X Y F D : PB) (hX : WF n X) (hY : WF n Y)
-    (hF : binop n .add .f X Y = .ok F) (hD : binop n .add .i X Y = .ok D) : Encloses F D := by
-  obtain ⟨e, -, -⟩ := add_f_good n X Y hX hY
-  simp only [binop] at hF hD
-  rw [e] at hF
-  have hFe := (Except.ok.inj hF).symm
-  subst hFe
-  obtain ⟨D', e', -, enc⟩ := frechet_encloses_independent (· + ·) add_mono2 n X Y hX hY
-  have hD' : add n .i X Y = mk n false (independentOp (· + ·) X Y).1 (independentOp (· + ·) X Y).2 := rfl
-  rw [hD', e'] at hD
-  have hDe := (Except.ok.inj hD).symm
-  subst hDe
-  exact enc
-
-/-- C02 enclosure, `sub` against `'i'` (`X.sub(Y,'i') = X.add(-Y,'i')`) -/
-theorem C02Encloses_sub_i_partial (n : Nat) (X Y F D : PB) (hX : WF n X) (hY : WF n Y)
-    (hF : binop n .sub .f X Y = .ok F) (hD : binop n .sub .i X Y = .ok D) : Encloses F D := by
-  obtain ⟨en, wn⟩ := neg_wf n Y hY
-  simp only [binop, sub, en, bind, Except.bind, swapPO] at hF hD
-  exact C02Encloses_add_i_partial n X (negB Y) F D hX wn (by simpa [binop] using hF) (by simpa [binop] using hD)
-
-/-- C02 enclosure, `mul` of non-negative, not identically zero operands against `'i'` -/
-theorem C02Encloses_mul_nonneg_i_partial (n : Nat) (X Y F D : PB) (hX : WF n X) (hY : WF n Y)
-    (pX : NonNeg X) (pY : NonNeg Y) (hxh : 0 < hi X) (hyh : 0 < hi Y)
-    (hF : binop n .mul .f X Y = .ok F) (hD : binop n .mul .i X Y = .ok D) : Encloses F D := by
-  simp only [binop] at hF hD
-  rw [mul_f_pos_ok n X Y hX hY pX pY hxh hyh] at hF
-  have hFe := (Except.ok.inj hF).symm
-  subst hFe
-  obtain ⟨D', e', -, enc⟩ := frechet_encloses_independent mulPos mulPos_mono2 n X Y hX hY
-  have hD' : mul n .i X Y = mk n false (independentOp (· * ·) X Y).1 (independentOp (· * ·) X Y).2 := rfl
-  rw [hD', independentOp_mul_eq X Y pX pY, e'] at hD
-  have hDe := (Except.ok.inj hD).symm
-  subst hDe
-  exact enc
-
-/-- C02 enclosure, `div` of a non-negative, not identically zero dividend by a positive divisor against `'i'` -/
-theorem C02Encloses_div_pos_i_partial (n : Nat) (X Y F D : PB) (hX : WF n X) (hY : WF n Y)
-    (pX : NonNeg X) (hxh : 0 < hi X) (pY : ∀ v ∈ Y.left, 0 < v)
-    (hF : binop n .div .f X Y = .ok F) (hD : binop n .div .i X Y = .ok D) : Encloses F D := by
-  have z : ZeroFree Y := Or.inl pY
-  obtain ⟨-, w, -, -⟩ := recip_ok n Y hY z
-  have hS : InS (fun v => 0 < v) Y := by
-    refine ⟨pY, ?_⟩
-    intro v hv
-    obtain ⟨i, hi', rfl⟩ := List.getElem_of_mem hv
-    have hl := hY.llen; have hr := hY.rlen
-    exact lt_of_lt_of_le (pY _ (List.getElem_mem _)) (hY.le i (by omega))
-  obtain ⟨-, hS'⟩ := flipB_wf _ _ antiInv_recip_pos n Y hY hS
-  have pR : NonNeg (recipB Y) := ⟨fun v hv => le_of_lt (hS'.1 v hv), fun v hv => le_of_lt (hS'.2 v hv)⟩
-  have hn : 0 < n := by
-    rcases Nat.eq_zero_or_pos n with h0 | h0
-    · subst h0
-      have e := List.eq_nil_of_length_eq_zero hX.rlen
-      simp [hi, e] at hxh
-    · exact h0
-  have hyh : 0 < hi (recipB Y) := by
-    have ne : (recipB Y).right ≠ [] := by
-      intro e
-      have := w.rlen
-      rw [e] at this
-      simp at this; omega
-    exact hS'.2 _ (getLastD_mem _ _ ne)
-  simp only [binop, div_eq_mul_recip n _ X Y hY z, swapPO] at hF hD
-  exact C02Encloses_mul_nonneg_i_partial n X (recipB Y) F D hX w pX pR hxh hyh
-    (by simpa [binop] using hF) (by simpa [binop] using hD)
-
-/-- all three other dependencies at once, for `add` and `sub` -/
-theorem C02Encloses_add_partial (n : Nat) (d : Dep) (X Y F D : PB) (hX : WF n X) (hY : WF n Y)
-    (hF : binop n .add .f X Y = .ok F) (hD : binop n .add d X Y = .ok D) : Encloses F D := by
+  have v := g.allValid
   cases d with
   | f =>
-    rw [hF] at hD
-    have e := Except.ok.inj hD
-    subst e
-    intro k l r dl dr hl hr hdl hdr
-    rw [hl] at hdl; rw [hr] at hdr
-    rw [← Option.some.inj hdl, ← Option.some.inj hdr]
-    exact ⟨le_refl _, le_refl _⟩
-  | p => exact C02Encloses_add_po_partial n .p (Or.inl rfl) X Y F D hX hY hF hD
-  | o => exact C02Encloses_add_po_partial n .o (Or.inr rfl) X Y F D hX hY hF hD
-  | i => exact C02Encloses_add_i_partial n X Y F D hX hY hF hD
-  | unknown => simp [binop, add] at hD
+    rw [e] at hD
+    have e' := Except.ok.inj hD
+    subst e'
+    exact encloses_refl _
+  | p =>
+    obtain ⟨D', e1, enc⟩ := perfect_enclosed (· + ·) n X Y _ hX hY ⟨wF.llen, wF.rlen⟩ v
+    have hD' : add n .p X Y = mk n false (perfectOp (· + ·) X Y).1 (perfectOp (· + ·) X Y).2 := rfl
+    rw [hD', e1] at hD
+    have e' := Except.ok.inj hD
+    subst e'
+    exact enc
+  | o =>
+    obtain ⟨D', e1, enc⟩ := opposite_enclosed (· + ·) n X Y _ hX hY ⟨wF.llen, wF.rlen⟩ v
+    have hD' : add n .o X Y = mk n false (oppositeOp (· + ·) X Y).1 (oppositeOp (· + ·) X Y).2 := rfl
+    rw [hD', e1] at hD
+    have e' := Except.ok.inj hD
+    subst e'
+    exact enc
+  | i =>
+    obtain ⟨D', e1, enc⟩ := independent_enclosed (· + ·) n X Y _ hX hY ⟨wF.llen, wF.rlen⟩ v
+    have hD' : add n .i X Y = mk n false (independentOp (· + ·) X Y).1 (independentOp (· + ·) X Y).2 := rfl
+    rw [hD', e1] at hD
+    have e' := Except.ok.inj hD
+    subst e'
+    exact enc
+  | unknown => simp [add] at hD
 
-/-- the `add` and `sub` instances of the full enclosure statement -/
-theorem C02Encloses_add : C02Encloses .add :=
-  fun n d X Y F D hX hY _ hF hD => C02Encloses_add_partial n d X Y F D hX hY hF hD
-
+/-- **C02 enclosure for the public `sub`**: `X.sub(Y, d) = X.add(-Y, swapped d)` -/
 theorem C02Encloses_sub : C02Encloses .sub := by
   intro n d X Y F D hX hY _ hF hD
   obtain ⟨en, wn⟩ := neg_wf n Y hY
   simp only [binop, sub, en, bind, Except.bind] at hF hD
   simp only [swapPO] at hF
-  exact C02Encloses_add_partial n (swapPO d) X (negB Y) F D hX wn (by simpa [binop] using hF)
+  exact C02Encloses_add n (swapPO d) X (negB Y) F D hX wn (fun h => by cases h) (by simpa [binop] using hF)
     (by simpa [binop] using hD)
+
+/-! ## enclosure for `mul` and `div`: ALL well-formed operands, every dependency -/
+
+/-- **C02 enclosure for the public `mul`**: the Frechet product encloses the perfect, the opposite and the
+independent product of ANY well-formed operands (any signs, zero-straddling included).  The four-corner
+minima / maxima of every pairing of steps are outcomes of a selection and a coupling
+(`corner_counts`), the `n × n` grid of the independent rule is the union of `n` shifted couplings
+(`independent_enclosed`), and the Frechet result is valid for all of them (`mul_f_allValid`). -/
+theorem C02Encloses_mul : C02Encloses .mul := by
+  intro n d X Y F D hX hY _ hF hD
+  simp only [binop] at hF hD
+  obtain ⟨wF, v⟩ := mul_f_allValid n X Y F hX hY hF
+  cases d with
+  | f =>
+    rw [hF] at hD
+    have e := Except.ok.inj hD
+    subst e
+    exact encloses_refl _
+  | p =>
+    obtain ⟨D', e, enc⟩ := perfect_enclosed (· * ·) n X Y F hX hY ⟨wF.llen, wF.rlen⟩ v
+    have hD' : mul n .p X Y = mk n false (perfectOp (· * ·) X Y).1 (perfectOp (· * ·) X Y).2 := rfl
+    rw [hD', e] at hD
+    have e' := Except.ok.inj hD
+    subst e'
+    exact enc
+  | o =>
+    obtain ⟨D', e, enc⟩ := opposite_enclosed (· * ·) n X Y F hX hY ⟨wF.llen, wF.rlen⟩ v
+    have hD' : mul n .o X Y = mk n false (oppositeOp (· * ·) X Y).1 (oppositeOp (· * ·) X Y).2 := rfl
+    rw [hD', e] at hD
+    have e' := Except.ok.inj hD
+    subst e'
+    exact enc
+  | i =>
+    obtain ⟨D', e, enc⟩ := independent_enclosed (· * ·) n X Y F hX hY ⟨wF.llen, wF.rlen⟩ v
+    have hD' : mul n .i X Y = mk n false (independentOp (· * ·) X Y).1 (independentOp (· * ·) X Y).2 := rfl
+    rw [hD', e] at hD
+    have e' := Except.ok.inj hD
+    subst e'
+    exact enc
+  | unknown => simp [mul] at hD
+
+/-- **C02 enclosure for the public `div`** (zero-free divisor): `X.div(Y, d) = X.mul(1/Y, swapped d)` -/
+theorem C02Encloses_div : C02Encloses .div := by
+  intro n d X Y F D hX hY z hF hD
+  have z' := z rfl
+  obtain ⟨-, w, -, -⟩ := recip_ok n Y hY z'
+  simp only [binop, div_eq_mul_recip n _ X Y hY z'] at hF hD
+  simp only [swapPO] at hF
+  exact C02Encloses_mul n (swapPO d) X (recipB Y) F D hX w (fun h => by cases h) (by simpa [binop] using hF)
+    (by simpa [binop] using hD)
+
+/-- **C02, enclosure part, in full**: all four operations, all well-formed operands, every dependency -/
+theorem C02Encloses_all (o : Op) : C02Encloses o := by
+  cases o with
+  | add => exact C02Encloses_add
+  | sub => exact C02Encloses_sub
+  | mul => exact C02Encloses_mul
+  | div => exact C02Encloses_div
 
 /-! non-vacuity: a concrete pair of 3-step boxes meets the hypotheses, and the rule computes -/
 example : WFS 3 ⟨[1, 2, 3], [2, 3, 4]⟩ := ⟨rfl, rfl, by decide, by decide⟩
@@ -691,10 +575,28 @@ example : OneSign ⟨[-3, -2, 0], [-2, -1, 0]⟩ := Or.inr (by constructor <;> d
 example : ZeroFree ⟨[1, 2, 3], [2, 3, 4]⟩ := Or.inl (by decide)
 example : WF 2 ⟨[-3, -2], [-2, 0]⟩ := ⟨⟨rfl, rfl, by decide, by decide⟩, by decide⟩
 example : ∃ R, binop 2 .mul .f ⟨[-3, -2], [-2, 0]⟩ ⟨[1, 2], [2, 4]⟩ = .ok R ∧ WF 2 R :=
-  mul_f_onesign_ok 2 _ _ ⟨⟨rfl, rfl, by decide, by decide⟩, by decide⟩ ⟨⟨rfl, rfl, by decide, by decide⟩, by decide⟩
-    (Or.inr (by constructor <;> decide)) (Or.inl (by constructor <;> decide))
+  binop_f_total .mul 2 _ _ ⟨⟨rfl, rfl, by decide, by decide⟩, by decide⟩ ⟨⟨rfl, rfl, by decide, by decide⟩, by decide⟩
+    (fun h => by cases h)
 example : ∃ R, binop 2 .div .f ⟨[1, 2], [2, 4]⟩ ⟨[-4, -2], [-2, -1]⟩ = .ok R ∧ WF 2 R :=
-  div_f_onesign_ok 2 _ _ ⟨⟨rfl, rfl, by decide, by decide⟩, by decide⟩ ⟨⟨rfl, rfl, by decide, by decide⟩, by decide⟩
-    (Or.inl (by constructor <;> decide)) (Or.inr (by decide))
+  binop_f_total .div 2 _ _ ⟨⟨rfl, rfl, by decide, by decide⟩, by decide⟩ ⟨⟨rfl, rfl, by decide, by decide⟩, by decide⟩
+    (fun _ => Or.inr (by decide))
+
+/-! a zero-straddling pair meets the hypotheses of `C02Validity_mul` -/
+example : WF 2 ⟨[-3, 1], [-1, 2]⟩ := ⟨⟨rfl, rfl, by decide, by decide⟩, by decide⟩
+example : ∃ R, binop 2 .mul .f ⟨[-3, 1], [-1, 2]⟩ ⟨[-2, 1], [0, 4]⟩ = .ok R ∧ WF 2 R :=
+  binop_f_total .mul 2 _ _ ⟨⟨rfl, rfl, by decide, by decide⟩, by decide⟩ ⟨⟨rfl, rfl, by decide, by decide⟩, by decide⟩
+    (fun h => by cases h)
+example : ∃ R, binop 2 .div .f ⟨[-3, 1], [-1, 2]⟩ ⟨[1, 2], [2, 4]⟩ = .ok R ∧ WF 2 R :=
+  binop_f_total .div 2 _ _ ⟨⟨rfl, rfl, by decide, by decide⟩, by decide⟩ ⟨⟨rfl, rfl, by decide, by decide⟩, by decide⟩
+    (fun _ => Or.inl (by decide))
+
+/-! the hypotheses of `C02Encloses_mul` are satisfiable with a zero-straddling pair: both runs return -/
+example : ∃ F D, binop 2 .mul .f ⟨[-3, 1], [-1, 2]⟩ ⟨[-2, 1], [0, 4]⟩ = .ok F ∧
+    binop 2 .mul .p ⟨[-3, 1], [-1, 2]⟩ ⟨[-2, 1], [0, 4]⟩ = .ok D := by
+  have hX : WF 2 ⟨[-3, 1], [-1, 2]⟩ := ⟨⟨rfl, rfl, by decide, by decide⟩, by decide⟩
+  have hY : WF 2 ⟨[-2, 1], [0, 4]⟩ := ⟨⟨rfl, rfl, by decide, by decide⟩, by decide⟩
+  obtain ⟨F, eF, wF⟩ := mul_f_total 2 _ _ hX hY
+  obtain ⟨D, eD, -⟩ := perfect_enclosed (· * ·) 2 _ _ F hX hY ⟨wF.llen, wF.rlen⟩ (mul_f_allValid 2 _ _ F hX hY eF).2
+  exact ⟨F, D, eF, eD⟩
 
 end Pun.PBox
